@@ -11,6 +11,7 @@ import (
 	kc "github.com/dapr/kit/crypto"
 	"github.com/dapr/kit/crypto/aescbcaead"
 	"github.com/dapr/kit/crypto/aeskw"
+	"github.com/dapr/kit/crypto/padding"
 	"github.com/lestrrat-go/jwx/v2/jwk"
 
 	"verif/harness/internal/mon"
@@ -87,9 +88,9 @@ func kEnc(via, alg string, key jwk.Key, nonce, pt, aad []byte) (r encRes) {
 		}
 	}()
 	if via == "Encrypt" {
-		r.ct, r.tag, r.err = kc.Encrypt(clone(pt), alg, key, clone(nonce), clone(aad))
+		r.ct, r.tag, r.err = kc.Encrypt(lay(pt), alg, key, lay(nonce), lay(aad))
 	} else {
-		r.ct, r.tag, r.err = kc.EncryptSymmetric(clone(pt), alg, key, clone(nonce), clone(aad))
+		r.ct, r.tag, r.err = kc.EncryptSymmetric(lay(pt), alg, key, lay(nonce), lay(aad))
 	}
 	return r
 }
@@ -101,9 +102,9 @@ func kDec(via, alg string, key jwk.Key, nonce, ct, tag, aad []byte) (r decRes) {
 		}
 	}()
 	if via == "Decrypt" {
-		r.pt, r.err = kc.Decrypt(clone(ct), alg, key, clone(nonce), clone(tag), clone(aad))
+		r.pt, r.err = kc.Decrypt(lay(ct), alg, key, lay(nonce), lay(tag), lay(aad))
 	} else {
-		r.pt, r.err = kc.DecryptSymmetric(clone(ct), alg, key, clone(nonce), clone(tag), clone(aad))
+		r.pt, r.err = kc.DecryptSymmetric(lay(ct), alg, key, lay(nonce), lay(tag), lay(aad))
 	}
 	return r
 }
@@ -120,7 +121,7 @@ func kWrap(b cipher.Block, cek []byte) (r rawRes) {
 			r = rawRes{pan: panStr(p)}
 		}
 	}()
-	r.out, r.err = aeskw.Wrap(b, clone(cek))
+	r.out, r.err = aeskw.Wrap(b, lay(cek))
 	return r
 }
 
@@ -130,7 +131,7 @@ func kUnwrap(b cipher.Block, c []byte) (r rawRes) {
 			r = rawRes{pan: panStr(p)}
 		}
 	}()
-	r.out, r.err = aeskw.Unwrap(b, clone(c))
+	r.out, r.err = aeskw.Unwrap(b, lay(c))
 	return r
 }
 
@@ -140,7 +141,7 @@ func kSeal(a cipher.AEAD, nonce, pt, aad []byte) (r rawRes) {
 			r = rawRes{pan: panStr(p)}
 		}
 	}()
-	r.out = a.Seal(nil, clone(nonce), clone(pt), clone(aad))
+	r.out = a.Seal(nil, lay(nonce), lay(pt), lay(aad))
 	return r
 }
 
@@ -150,7 +151,7 @@ func kOpen(a cipher.AEAD, nonce, sealed, aad []byte) (r rawRes) {
 			r = rawRes{pan: panStr(p)}
 		}
 	}()
-	r.out, r.err = a.Open(nil, clone(nonce), clone(sealed), clone(aad))
+	r.out, r.err = a.Open(nil, lay(nonce), lay(sealed), lay(aad))
 	return r
 }
 
@@ -297,15 +298,20 @@ func runSymRoundTrip(j *judge, g group) {
 			rct, rtag := refEnc(a, key, nonce, pt, aad)
 
 			// kit decrypts what the reference produced
-			d2 := kDec("DecryptSymmetric", a.name, jk, nonce, rct, rtag, aad)
-			if j.accept("DecryptSymmetric", a.name, "reference-output", d2.err, d2.pan, rp) {
+			var d2 decRes
+			j.eachLayout("valid", a.tagLen, func() bool {
+				d2 = kDec("DecryptSymmetric", a.name, jk, nonce, rct, rtag, aad)
+				if !j.accept("DecryptSymmetric", a.name, "reference-output", d2.err, d2.pan, rp) {
+					return false
+				}
 				if !bytes.Equal(d2.pt, pt) {
 					j.viol(sigOf("DecryptSymmetric", a.name, "interop-reference-output-decrypts-differently"),
 						"kit decrypted the reference implementation's ciphertext to a different plaintext", rpm("algorithm", a.name, "key", key, "nonce", nonce, "plaintext", pt, "aad", aad, "ref_ciphertext", rct, "ref_tag", rtag, "kit_plaintext", d2.pt))
-				} else {
-					rec.Count("sym.interop.kit_decrypts_reference", 1)
+					return false
 				}
-			}
+				rec.Count("sym.interop.kit_decrypts_reference", 1)
+				return true
+			})
 
 			// kit encrypts: byte-identical to the reference (all these algorithms are deterministic given the nonce)
 			e := kEnc("EncryptSymmetric", a.name, jk, nonce, pt, aad)
@@ -425,7 +431,7 @@ func runSymTamper(j *judge, g group) {
 		default:
 			comps = []comp{{"ciphertext", e.ct}, {"tag", e.tag}, {"nonce", nonce}, {"aad", aad}}
 		}
-		try := func(ci int, mutated []byte, shape, detail string) {
+		try1 := func(ci int, mutated []byte, shape, detail string) bool {
 			in := [4][]byte{e.ct, e.tag, nonce, aad}
 			switch comps[ci].name {
 			case "wrapped-key", "ciphertext":
@@ -441,23 +447,29 @@ func runSymTamper(j *judge, g group) {
 			rp := rpm("algorithm", a.name, "key", key, "plaintext", pt, "valid_ciphertext", e.ct, "valid_tag", e.tag, "valid_nonce", nonce, "valid_aad", aad,
 				"mutation", detail, "ciphertext", in[0], "tag", in[1], "nonce", in[2], "aad", in[3], "kit_plaintext", d.pt, "kit_err", d.err)
 			if a.auth {
-				if j.reject("DecryptSymmetric", a.name, shape, [][]byte{d.pt}, d.err, d.pan, nil, rp) {
+				ok := j.reject("DecryptSymmetric", a.name, shape, [][]byte{d.pt}, d.err, d.pan, nil, rp)
+				if ok {
 					rec.Count("sym.tamper.rejected", 1)
-					if shape == "tag-bit-flip" && mi == 1 && strings.HasPrefix(detail, "tag byte 0 ") && rec.WantSample() {
+					if shape == "tag-bit-flip" && mi == 1 && j.spare < 0 && strings.HasPrefix(detail, "tag byte 0 ") && rec.WantSample() {
 						rec.Sample(map[string]any{"clause": "tamper", "algorithm": a.name, "key": hx(key), "nonce": hx(in[2]), "aad": hx(in[3]), "ciphertext": hx(in[0]), "tag": hx(in[1]),
 							"valid_tag": hx(e.tag), "mutation": detail, "kit_error": errStr(d.err), "kit_output": hx(d.pt)})
 					}
 				}
-				return
+				return ok
 			}
 			// plain CBC is not authenticated: only "no panic"
-			if j.noPanic("DecryptSymmetric", a.name, shape, d.pan, rp) {
-				if d.err == nil {
-					rec.Count("observed.cbc.tamper.undetected", 1)
-				} else {
-					rec.Count("observed.cbc.tamper.error", 1)
-				}
+			if !j.noPanic("DecryptSymmetric", a.name, shape, d.pan, rp) {
+				return false
 			}
+			if d.err == nil {
+				rec.Count("observed.cbc.tamper.undetected", 1)
+			} else {
+				rec.Count("observed.cbc.tamper.error", 1)
+			}
+			return true
+		}
+		try := func(ci int, mutated []byte, shape, detail string) {
+			j.eachLayout("tamper", a.tagLen, func() bool { return try1(ci, mutated, shape, detail) })
 		}
 		for ci, c := range comps {
 			for i := range c.val {
@@ -519,23 +531,25 @@ func runSymKeys(j *judge, g group) {
 				want = []error{kc.ErrKeyTypeMismatch, kc.ErrUnsupportedAlgorithm}
 			}
 			rp := rpm("algorithm", a.name, "key", keyDesc, "nonce", nonce, "plaintext", pt, "ciphertext", ct, "tag", tag)
-			e := kEnc(via[0], a.name, jk, nonce, pt, nil)
-			d := kDec(via[1], a.name, jk, nonce, ct, tag, nil)
-			if right {
-				if a.fam == famNOPAD && via[0] == "Encrypt" {
-					j.noPanic(via[0], a.name, shape, e.pan, rp)
-				} else if j.accept(via[0], a.name, shape, e.err, e.pan, rp) {
-					rec.Count("keys.right_size_accepted", 1)
+			j.eachLayout("wrongsize", a.tagLen, func() bool {
+				e := kEnc(via[0], a.name, jk, nonce, pt, nil)
+				d := kDec(via[1], a.name, jk, nonce, ct, tag, nil)
+				if right {
+					ok := true
+					if a.fam == famNOPAD && via[0] == "Encrypt" {
+						ok = j.noPanic(via[0], a.name, shape, e.pan, rp)
+					} else if ok = j.accept(via[0], a.name, shape, e.err, e.pan, rp); ok {
+						rec.Count("keys.right_size_accepted", 1)
+					}
+					return j.noPanic(via[1], a.name, shape, d.pan, rp) && ok
 				}
-				j.noPanic(via[1], a.name, shape, d.pan, rp)
-				continue
-			}
-			if j.reject(via[0], a.name, shape, [][]byte{e.ct, e.tag}, e.err, e.pan, want, rp) {
-				rec.Count("keys.wrong_rejected", 1)
-			}
-			if j.reject(via[1], a.name, shape, [][]byte{d.pt}, d.err, d.pan, want, rp) {
-				rec.Count("keys.wrong_rejected", 1)
-			}
+				ok1 := j.reject(via[0], a.name, shape, [][]byte{e.ct, e.tag}, e.err, e.pan, want, rp)
+				ok2 := j.reject(via[1], a.name, shape, [][]byte{d.pt}, d.err, d.pan, want, rp)
+				if ok1 && ok2 {
+					rec.Count("keys.wrong_rejected", 2)
+				}
+				return ok1 && ok2
+			})
 		}
 	}
 	for _, size := range keySizes {
@@ -583,29 +597,34 @@ func runSymNonceTag(j *judge, g group) {
 		for _, nonce := range variants {
 			shape := fmt.Sprintf("nonce-len-%d", n)
 			rp := rpm("algorithm", a.name, "key", key, "nonce", nonce, "plaintext", pt, "aad", aad, "ciphertext", e.ct, "tag", e.tag)
-			ee := kEnc("EncryptSymmetric", a.name, jk, nonce, pt, aad)
-			dd := kDec("DecryptSymmetric", a.name, jk, nonce, e.ct, e.tag, aad)
-			switch {
-			case a.nonceLen == 0:
-				// AES-KW takes no nonce; whatever is passed is ignored (not judged)
-				j.noPanic("EncryptSymmetric", a.name, shape, ee.pan, rp)
-				j.noPanic("DecryptSymmetric", a.name, shape, dd.pan, rp)
-				if ee.err == nil && dd.err == nil {
-					rec.Count("observed.kw.nonce_ignored", 1)
+			j.eachLayout("wrongsize", a.tagLen, func() bool {
+				ee := kEnc("EncryptSymmetric", a.name, jk, nonce, pt, aad)
+				dd := kDec("DecryptSymmetric", a.name, jk, nonce, e.ct, e.tag, aad)
+				switch {
+				case a.nonceLen == 0:
+					// AES-KW takes no nonce; whatever is passed is ignored (not judged)
+					ok1 := j.noPanic("EncryptSymmetric", a.name, shape, ee.pan, rp)
+					ok2 := j.noPanic("DecryptSymmetric", a.name, shape, dd.pan, rp)
+					if ee.err == nil && dd.err == nil {
+						rec.Count("observed.kw.nonce_ignored", 1)
+					}
+					return ok1 && ok2
+				case n == a.nonceLen:
+					ok1 := j.accept("EncryptSymmetric", a.name, shape, ee.err, ee.pan, rp)
+					ok2 := j.accept("DecryptSymmetric", a.name, shape, dd.err, dd.pan, rp)
+					if ok2 && !bytes.Equal(dd.pt, pt) {
+						j.viol(sigOf("DecryptSymmetric", a.name, "roundtrip-plaintext-differs"), "Decrypt(Encrypt(p)) != p", rp)
+						ok2 = false
+					}
+					return ok1 && ok2
 				}
-			case n == a.nonceLen:
-				j.accept("EncryptSymmetric", a.name, shape, ee.err, ee.pan, rp)
-				if j.accept("DecryptSymmetric", a.name, shape, dd.err, dd.pan, rp) && !bytes.Equal(dd.pt, pt) {
-					j.viol(sigOf("DecryptSymmetric", a.name, "roundtrip-plaintext-differs"), "Decrypt(Encrypt(p)) != p", rp)
+				ok1 := j.reject("EncryptSymmetric", a.name, shape, [][]byte{ee.ct, ee.tag}, ee.err, ee.pan, []error{kc.ErrInvalidNonce}, rp)
+				ok2 := j.reject("DecryptSymmetric", a.name, shape, [][]byte{dd.pt}, dd.err, dd.pan, []error{kc.ErrInvalidNonce}, rp)
+				if ok1 && ok2 {
+					rec.Count("nonce.wrong_len_rejected", 2)
 				}
-			default:
-				if j.reject("EncryptSymmetric", a.name, shape, [][]byte{ee.ct, ee.tag}, ee.err, ee.pan, []error{kc.ErrInvalidNonce}, rp) {
-					rec.Count("nonce.wrong_len_rejected", 1)
-				}
-				if j.reject("DecryptSymmetric", a.name, shape, [][]byte{dd.pt}, dd.err, dd.pan, []error{kc.ErrInvalidNonce}, rp) {
-					rec.Count("nonce.wrong_len_rejected", 1)
-				}
-			}
+				return ok1 && ok2
+			})
 		}
 	}
 	for n := 0; n <= 32; n++ {
@@ -616,22 +635,34 @@ func runSymNonceTag(j *judge, g group) {
 		for _, tag := range variants {
 			shape := fmt.Sprintf("tag-len-%d", n)
 			rp := rpm("algorithm", a.name, "key", key, "nonce", good, "plaintext", pt, "aad", aad, "ciphertext", e.ct, "valid_tag", e.tag, "tag", tag)
-			dd := kDec("DecryptSymmetric", a.name, jk, good, e.ct, tag, aad)
-			switch {
-			case a.tagLen == 0:
-				// no tag in this algorithm: whatever is passed is ignored (not judged)
-				if j.noPanic("DecryptSymmetric", a.name, shape, dd.pan, rp) && dd.err == nil && bytes.Equal(dd.pt, pt) {
-					rec.Count("observed.untagged.tag_ignored", 1)
+			j.eachLayout("wrongsize", a.tagLen, func() bool {
+				dd := kDec("DecryptSymmetric", a.name, jk, good, e.ct, tag, aad)
+				switch {
+				case a.tagLen == 0:
+					// no tag in this algorithm: whatever is passed is ignored (not judged)
+					if !j.noPanic("DecryptSymmetric", a.name, shape, dd.pan, rp) {
+						return false
+					}
+					if dd.err == nil && bytes.Equal(dd.pt, pt) {
+						rec.Count("observed.untagged.tag_ignored", 1)
+					}
+					return true
+				case n == a.tagLen:
+					if !j.accept("DecryptSymmetric", a.name, shape, dd.err, dd.pan, rp) {
+						return false
+					}
+					if !bytes.Equal(dd.pt, pt) {
+						j.viol(sigOf("DecryptSymmetric", a.name, "roundtrip-plaintext-differs"), "Decrypt(Encrypt(p)) != p", rp)
+						return false
+					}
+					return true
 				}
-			case n == a.tagLen:
-				if j.accept("DecryptSymmetric", a.name, shape, dd.err, dd.pan, rp) && !bytes.Equal(dd.pt, pt) {
-					j.viol(sigOf("DecryptSymmetric", a.name, "roundtrip-plaintext-differs"), "Decrypt(Encrypt(p)) != p", rp)
+				if !j.reject("DecryptSymmetric", a.name, shape, [][]byte{dd.pt}, dd.err, dd.pan, []error{kc.ErrInvalidTag}, rp) {
+					return false
 				}
-			default:
-				if j.reject("DecryptSymmetric", a.name, shape, [][]byte{dd.pt}, dd.err, dd.pan, []error{kc.ErrInvalidTag}, rp) {
-					rec.Count("tag.wrong_len_rejected", 1)
-				}
-			}
+				rec.Count("tag.wrong_len_rejected", 1)
+				return true
+			})
 		}
 	}
 	// several things wrong at once: any applicable sentinel
@@ -639,13 +670,17 @@ func runSymNonceTag(j *judge, g group) {
 		badNonce := sized(good, a.nonceLen+1)
 		badKey := octKey(rng.Bytes(a.keyLen + 1))
 		rp := rpm("algorithm", a.name, "nonce", badNonce, "note", "key one byte too long and nonce one byte too long")
-		ee := kEnc("EncryptSymmetric", a.name, badKey, badNonce, pt, aad)
-		j.reject("EncryptSymmetric", a.name, "key-size-and-nonce-len-wrong", [][]byte{ee.ct, ee.tag}, ee.err, ee.pan, []error{kc.ErrKeyTypeMismatch, kc.ErrInvalidNonce}, rp)
+		j.eachLayout("wrongsize", a.tagLen, func() bool {
+			ee := kEnc("EncryptSymmetric", a.name, badKey, badNonce, pt, aad)
+			return j.reject("EncryptSymmetric", a.name, "key-size-and-nonce-len-wrong", [][]byte{ee.ct, ee.tag}, ee.err, ee.pan, []error{kc.ErrKeyTypeMismatch, kc.ErrInvalidNonce}, rp)
+		})
 		if a.tagLen > 0 {
 			badTag := sized(e.tag, a.tagLen-1)
-			dd := kDec("DecryptSymmetric", a.name, jk, badNonce, e.ct, badTag, aad)
-			j.reject("DecryptSymmetric", a.name, "nonce-and-tag-len-wrong", [][]byte{dd.pt}, dd.err, dd.pan, []error{kc.ErrInvalidNonce, kc.ErrInvalidTag},
-				rpm("algorithm", a.name, "key", key, "nonce", badNonce, "ciphertext", e.ct, "tag", badTag, "aad", aad))
+			j.eachLayout("wrongsize", a.tagLen, func() bool {
+				dd := kDec("DecryptSymmetric", a.name, jk, badNonce, e.ct, badTag, aad)
+				return j.reject("DecryptSymmetric", a.name, "nonce-and-tag-len-wrong", [][]byte{dd.pt}, dd.err, dd.pan, []error{kc.ErrInvalidNonce, kc.ErrInvalidTag},
+					rpm("algorithm", a.name, "key", key, "nonce", badNonce, "ciphertext", e.ct, "tag", badTag, "aad", aad))
+			})
 		}
 	}
 }
@@ -681,99 +716,130 @@ func runSymCtLen(j *judge, g group) {
 				aad = rng.Bytes(5)
 			}
 		}
-		d := kDec("DecryptSymmetric", a.name, jk, nonce, ct, tag, aad)
-		rp := rpm("algorithm", a.name, "key", key, "nonce", nonce, "ciphertext", ct, "tag", tag, "aad", aad, "kit_plaintext", d.pt, "kit_err", d.err)
-		outs := [][]byte{d.pt}
-		switch a.fam {
-		case famCBC, famNOPAD:
-			if L%16 != 0 {
-				if j.reject("DecryptSymmetric", a.name, "ciphertext-len-not-block-multiple", outs, d.err, d.pan, []error{kc.ErrInvalidCiphertextLength}, rp) {
-					rec.Count("ctlen.cbc.nonblock_rejected", 1)
-				}
-				break
-			}
-			want, valid := refDec(a, key, nonce, ct, nil, nil)
-			if valid {
-				// these blocks ARE a well-formed ciphertext of `want` under an independent implementation
-				if j.accept("DecryptSymmetric", a.name, "well-formed-random-blocks", d.err, d.pan, rp) {
-					if !bytes.Equal(d.pt, want) {
-						j.viol(sigOf("DecryptSymmetric", a.name, "interop-reference-output-decrypts-differently"), "kit and the reference decrypt the same blocks to different plaintexts", rp)
-					} else {
-						rec.Count("ctlen.cbc.valid_blocks_agree", 1)
-					}
-				}
-				break
-			}
-			// unauthenticated CBC with invalid padding (or no block at all): only "no panic" is required
-			if j.noPanic("DecryptSymmetric", a.name, "random-blocks-invalid-padding", d.pan, rp) {
-				if d.err == nil {
-					rec.Count("observed.cbc.invalid_padding.accepted", 1)
-					if L == 0 {
-						rec.Observe("AES-CBC (PKCS#7): DecryptSymmetric of an empty ciphertext returns an empty plaintext and no error (an independent unpadder rejects it: a padded ciphertext has at least one block); unauthenticated mode, not judged")
-					}
-				} else {
-					rec.Count("observed.cbc.invalid_padding.error", 1)
-				}
-			}
-		case famGCM, famC20P, famXC20P:
-			if j.reject("DecryptSymmetric", a.name, "forged-ciphertext", outs, d.err, d.pan, nil, rp) {
-				rec.Count("ctlen.forged_rejected", 1)
-			}
-		case famHS:
-			if j.reject("DecryptSymmetric", a.name, "forged-ciphertext", outs, d.err, d.pan, nil, rp) {
-				rec.Count("ctlen.forged_rejected", 1)
-			}
-			// the same bytes with a CORRECT tag (made by the reference composition): wrong-size ciphertexts must still give an error
-			vtag := refHSTag(hsTable[a.name], key, nonce, ct, aad)
-			d2 := kDec("DecryptSymmetric", a.name, jk, nonce, ct, vtag, aad)
-			rp2 := rpm("algorithm", a.name, "key", key, "nonce", nonce, "ciphertext", ct, "tag", vtag, "aad", aad, "kit_plaintext", d2.pt, "kit_err", d2.err, "note", "tag is the correct HMAC over this ciphertext")
-			switch {
-			case L%16 != 0:
-				if j.reject("DecryptSymmetric", a.name, "valid-mac-ciphertext-len-not-block-multiple", [][]byte{d2.pt}, d2.err, d2.pan, nil, rp2) {
-					rec.Count("ctlen.hs.validmac_nonblock_rejected", 1)
-				}
-			case L == 0:
-				if j.noPanic("DecryptSymmetric", a.name, "valid-mac-empty-ciphertext", d2.pan, rp2) && d2.err == nil {
-					rec.Count("observed.hs.validmac_empty_ciphertext.accepted", 1)
-					rec.Observe("AES-CBC-HMAC: a correctly MACed EMPTY ciphertext decrypts to an empty plaintext without error (RFC 7518 5.2.2 ciphertexts always contain a padding block; an independent implementation rejects it); needs the key to produce, not judged")
-				}
-			default:
-				want, valid := refHSOpen(a.name, key, nonce, ct, vtag, aad)
-				if valid {
-					if j.accept("DecryptSymmetric", a.name, "valid-mac-well-formed-blocks", d2.err, d2.pan, rp2) && !bytes.Equal(d2.pt, want) {
-						j.viol(sigOf("DecryptSymmetric", a.name, "interop-reference-output-decrypts-differently"), "kit and the reference decrypt the same authentic blocks to different plaintexts", rp2)
-					}
-				} else if j.noPanic("DecryptSymmetric", a.name, "valid-mac-invalid-padding", d2.pan, rp2) {
-					if d2.err != nil {
-						rec.Count("observed.hs.validmac_invalid_padding.error", 1)
-					} else {
-						rec.Count("observed.hs.validmac_invalid_padding.accepted", 1)
-					}
-				}
-			}
-		case famKW:
-			shape := "forged-wrapped-key"
-			switch {
-			case L < 16:
-				shape = "input-shorter-than-16"
-			case L%8 != 0:
-				shape = "ciphertext-len-not-multiple-of-8"
-			}
-			if j.reject("DecryptSymmetric", a.name, shape, outs, d.err, d.pan, nil, rp) {
-				rec.Count("ctlen.kw.rejected", 1)
-			}
-		}
+		j.eachLayout("wrongsize", a.tagLen, func() bool { return ctLenCase(j, a, key, jk, L, ct, nonce, tag, aad) })
 	}
 	if a.fam == famKW {
 		// short inputs that start with the RFC 3394 integrity value
 		for k := 0; k <= 7; k++ {
 			ct := append(clone(kwIVBytes), rng.Bytes(k)...)
-			d := kDec("DecryptSymmetric", a.name, jk, nil, ct, nil, nil)
-			if j.reject("DecryptSymmetric", a.name, "input-shorter-than-16", [][]byte{d.pt}, d.err, d.pan, nil, rpm("algorithm", a.name, "key", key, "ciphertext", ct)) {
+			j.eachLayout("wrongsize", 0, func() bool {
+				d := kDec("DecryptSymmetric", a.name, jk, nil, ct, nil, nil)
+				if !j.reject("DecryptSymmetric", a.name, "input-shorter-than-16", [][]byte{d.pt}, d.err, d.pan, nil, rpm("algorithm", a.name, "key", key, "ciphertext", ct)) {
+					return false
+				}
 				rec.Count("ctlen.kw.rejected", 1)
-			}
+				return true
+			})
 		}
 	}
+}
+
+// ctLenCase: one (algorithm, ciphertext length) case of the wrong-size clause in the current buffer layout.
+func ctLenCase(j *judge, a symAlg, key []byte, jk jwk.Key, L int, ct, nonce, tag, aad []byte) bool {
+	d := kDec("DecryptSymmetric", a.name, jk, nonce, ct, tag, aad)
+	rp := rpm("algorithm", a.name, "key", key, "nonce", nonce, "ciphertext", ct, "tag", tag, "aad", aad, "kit_plaintext", d.pt, "kit_err", d.err)
+	outs := [][]byte{d.pt}
+	switch a.fam {
+	case famCBC, famNOPAD:
+		if L%16 != 0 {
+			if !j.reject("DecryptSymmetric", a.name, "ciphertext-len-not-block-multiple", outs, d.err, d.pan, []error{kc.ErrInvalidCiphertextLength}, rp) {
+				return false
+			}
+			rec.Count("ctlen.cbc.nonblock_rejected", 1)
+			return true
+		}
+		want, valid := refDec(a, key, nonce, ct, nil, nil)
+		if valid {
+			// these blocks ARE a well-formed ciphertext of `want` under an independent implementation
+			if !j.accept("DecryptSymmetric", a.name, "well-formed-random-blocks", d.err, d.pan, rp) {
+				return false
+			}
+			if !bytes.Equal(d.pt, want) {
+				j.viol(sigOf("DecryptSymmetric", a.name, "interop-reference-output-decrypts-differently"), "kit and the reference decrypt the same blocks to different plaintexts", rp)
+				return false
+			}
+			rec.Count("ctlen.cbc.valid_blocks_agree", 1)
+			return true
+		}
+		// unauthenticated CBC with invalid padding (or no block at all): only "no panic" is required
+		if !j.noPanic("DecryptSymmetric", a.name, "random-blocks-invalid-padding", d.pan, rp) {
+			return false
+		}
+		if d.err == nil {
+			rec.Count("observed.cbc.invalid_padding.accepted", 1)
+			if L == 0 {
+				rec.Observe("AES-CBC (PKCS#7): DecryptSymmetric of an empty ciphertext returns an empty plaintext and no error (an independent unpadder rejects it: a padded ciphertext has at least one block); unauthenticated mode, not judged")
+			}
+		} else {
+			rec.Count("observed.cbc.invalid_padding.error", 1)
+		}
+		return true
+	case famGCM, famC20P, famXC20P:
+		if !j.reject("DecryptSymmetric", a.name, "forged-ciphertext", outs, d.err, d.pan, nil, rp) {
+			return false
+		}
+		rec.Count("ctlen.forged_rejected", 1)
+		return true
+	case famHS:
+		if !j.reject("DecryptSymmetric", a.name, "forged-ciphertext", outs, d.err, d.pan, nil, rp) {
+			return false
+		}
+		rec.Count("ctlen.forged_rejected", 1)
+		// the same bytes with a CORRECT tag (made by the reference composition): wrong-size ciphertexts must still give an error
+		vtag := refHSTag(hsTable[a.name], key, nonce, ct, aad)
+		d2 := kDec("DecryptSymmetric", a.name, jk, nonce, ct, vtag, aad)
+		rp2 := rpm("algorithm", a.name, "key", key, "nonce", nonce, "ciphertext", ct, "tag", vtag, "aad", aad, "kit_plaintext", d2.pt, "kit_err", d2.err, "note", "tag is the correct HMAC over this ciphertext")
+		switch {
+		case L%16 != 0:
+			if !j.reject("DecryptSymmetric", a.name, "valid-mac-ciphertext-len-not-block-multiple", [][]byte{d2.pt}, d2.err, d2.pan, nil, rp2) {
+				return false
+			}
+			rec.Count("ctlen.hs.validmac_nonblock_rejected", 1)
+		case L == 0:
+			if !j.noPanic("DecryptSymmetric", a.name, "valid-mac-empty-ciphertext", d2.pan, rp2) {
+				return false
+			}
+			if d2.err == nil {
+				rec.Count("observed.hs.validmac_empty_ciphertext.accepted", 1)
+				rec.Observe("AES-CBC-HMAC: a correctly MACed EMPTY ciphertext decrypts to an empty plaintext without error (RFC 7518 5.2.2 ciphertexts always contain a padding block; an independent implementation rejects it); needs the key to produce, not judged")
+			}
+		default:
+			want, valid := refHSOpen(a.name, key, nonce, ct, vtag, aad)
+			if valid {
+				if !j.accept("DecryptSymmetric", a.name, "valid-mac-well-formed-blocks", d2.err, d2.pan, rp2) {
+					return false
+				}
+				if !bytes.Equal(d2.pt, want) {
+					j.viol(sigOf("DecryptSymmetric", a.name, "interop-reference-output-decrypts-differently"), "kit and the reference decrypt the same authentic blocks to different plaintexts", rp2)
+					return false
+				}
+				return true
+			}
+			if !j.noPanic("DecryptSymmetric", a.name, "valid-mac-invalid-padding", d2.pan, rp2) {
+				return false
+			}
+			if d2.err != nil {
+				rec.Count("observed.hs.validmac_invalid_padding.error", 1)
+			} else {
+				rec.Count("observed.hs.validmac_invalid_padding.accepted", 1)
+			}
+		}
+		return true
+	case famKW:
+		shape := "forged-wrapped-key"
+		switch {
+		case L < 16:
+			shape = "input-shorter-than-16"
+		case L%8 != 0:
+			shape = "ciphertext-len-not-multiple-of-8"
+		}
+		if !j.reject("DecryptSymmetric", a.name, shape, outs, d.err, d.pan, nil, rp) {
+			return false
+		}
+		rec.Count("ctlen.kw.rejected", 1)
+		return true
+	}
+	return true
 }
 
 // ------------------------------------------------------------ aeskw directly
@@ -789,17 +855,27 @@ func runKWDirect(j *judge, g group) {
 	for _, L := range ptLengths() {
 		cek := rng.Bytes(L)
 		rp := rpm("kek", kek, "cek", cek)
-		w := kWrap(blk, cek)
 		switch {
 		case L%8 != 0:
-			j.reject("aeskw.Wrap", "", "cek-len-not-multiple-of-8", [][]byte{w.out}, w.err, w.pan, nil, rp)
+			j.eachLayout("wrongsize", 0, func() bool {
+				w := kWrap(blk, cek)
+				return j.reject("aeskw.Wrap", "", "cek-len-not-multiple-of-8", [][]byte{w.out}, w.err, w.pan, nil, rp)
+			})
 			continue
 		case L < 16:
-			if j.noPanic("aeskw.Wrap", "", "cek-shorter-than-16", w.pan, rp) && w.err == nil {
-				rec.Count("observed.kw.short_plaintext.accepted", 1)
-			}
+			j.eachLayout("wrongsize", 0, func() bool {
+				w := kWrap(blk, cek)
+				if !j.noPanic("aeskw.Wrap", "", "cek-shorter-than-16", w.pan, rp) {
+					return false
+				}
+				if w.err == nil {
+					rec.Count("observed.kw.short_plaintext.accepted", 1)
+				}
+				return true
+			})
 			continue
 		}
+		w := kWrap(blk, cek)
 		ref := refWrap(kek, cek)
 		if j.accept("aeskw.Wrap", "", "wrap", w.err, w.pan, rp) {
 			if !bytes.Equal(w.out, ref) {
@@ -819,23 +895,31 @@ func runKWDirect(j *judge, g group) {
 				}
 			}
 		}
-		u2 := kUnwrap(blk, ref)
-		if j.accept("aeskw.Unwrap", "", "reference-output", u2.err, u2.pan, rp) {
+		j.eachLayout("valid", 0, func() bool {
+			u2 := kUnwrap(blk, ref)
+			if !j.accept("aeskw.Unwrap", "", "reference-output", u2.err, u2.pan, rp) {
+				return false
+			}
 			if !bytes.Equal(u2.out, cek) {
 				j.viol("aeskw.Unwrap/interop-reference-output-unwraps-differently", "kit unwraps the reference's output to a different key", rp)
-			} else {
-				rec.Count("sym.interop.kit_decrypts_reference", 1)
+				return false
 			}
-		}
+			rec.Count("sym.interop.kit_decrypts_reference", 1)
+			return true
+		})
 	}
 	for _, L := range []int{16, 40} {
 		cek := rng.Bytes(L)
 		wrapped := refWrap(kek, cek)
 		try := func(in []byte, shape, detail string) {
-			u := kUnwrap(blk, in)
-			if j.reject("aeskw.Unwrap", "", shape, [][]byte{u.out}, u.err, u.pan, nil, rpm("kek", kek, "cek", cek, "valid_wrapped", wrapped, "mutation", detail, "input", in, "kit_output", u.out)) {
+			j.eachLayout("tamper", 0, func() bool {
+				u := kUnwrap(blk, in)
+				if !j.reject("aeskw.Unwrap", "", shape, [][]byte{u.out}, u.err, u.pan, nil, rpm("kek", kek, "cek", cek, "valid_wrapped", wrapped, "mutation", detail, "input", in, "kit_output", u.out)) {
+					return false
+				}
 				rec.Count("sym.tamper.rejected", 1)
-			}
+				return true
+			})
 		}
 		for i := range wrapped {
 			for _, bit := range bitsFor(i, g.rep) {
@@ -860,13 +944,17 @@ func runKWDirect(j *judge, g group) {
 		case L%8 != 0:
 			shape = "input-len-not-multiple-of-8"
 		}
-		u := kUnwrap(blk, in)
-		j.reject("aeskw.Unwrap", "", shape, [][]byte{u.out}, u.err, u.pan, nil, rpm("kek", kek, "input", in))
+		j.eachLayout("wrongsize", 0, func() bool {
+			u := kUnwrap(blk, in)
+			return j.reject("aeskw.Unwrap", "", shape, [][]byte{u.out}, u.err, u.pan, nil, rpm("kek", kek, "input", in))
+		})
 	}
 	for k := 0; k <= 7; k++ {
 		in := append(clone(kwIVBytes), rng.Bytes(k)...)
-		u := kUnwrap(blk, in)
-		j.reject("aeskw.Unwrap", "", "input-shorter-than-16", [][]byte{u.out}, u.err, u.pan, nil, rpm("kek", kek, "input", in))
+		j.eachLayout("wrongsize", 0, func() bool {
+			u := kUnwrap(blk, in)
+			return j.reject("aeskw.Unwrap", "", "input-shorter-than-16", [][]byte{u.out}, u.err, u.pan, nil, rpm("kek", kek, "input", in))
+		})
 	}
 }
 
@@ -938,15 +1026,19 @@ func runHSDirect(j *judge, g group) {
 				rec.Count("sym.interop.kit_equals_reference", 1)
 			}
 		}
-		o := kOpen(aead, nonce, ref, aad)
-		if j.accept("aescbcaead.Open", name, "reference-output", o.err, o.pan, rp) {
+		j.eachLayout("valid", pr.tagLen, func() bool {
+			o := kOpen(aead, nonce, ref, aad)
+			if !j.accept("aescbcaead.Open", name, "reference-output", o.err, o.pan, rp) {
+				return false
+			}
 			if !bytes.Equal(o.out, pt) {
 				j.viol(sigOf("aescbcaead.Open", name, "interop-reference-output-decrypts-differently"), "Open(reference output) != plaintext", rp)
-			} else {
-				rec.Count("sym.interop.kit_decrypts_reference", 1)
-				rec.Count("sym.roundtrip.ok", 1)
+				return false
 			}
-		}
+			rec.Count("sym.interop.kit_decrypts_reference", 1)
+			rec.Count("sym.roundtrip.ok", 1)
+			return true
+		})
 	}
 	for mi, L := range []int{0, 17} {
 		pt := rng.Bytes(L)
@@ -958,15 +1050,23 @@ func runHSDirect(j *judge, g group) {
 		rct, rtag := refHSSeal(name, key, nonce, pt, aad)
 		sealed := append(clone(rct), rtag...)
 		try := func(n, s, a []byte, shape, detail string) {
-			o := kOpen(aead, n, s, a)
-			if j.reject("aescbcaead.Open", name, shape, [][]byte{o.out}, o.err, o.pan, nil,
-				rpm("construction", name, "key", key, "valid_nonce", nonce, "valid_sealed", sealed, "valid_aad", aad, "mutation", detail, "nonce", n, "sealed", s, "aad", a)) {
+			j.eachLayout("tamper", pr.tagLen, func() bool {
+				o := kOpen(aead, n, s, a)
+				if !j.reject("aescbcaead.Open", name, shape, [][]byte{o.out}, o.err, o.pan, nil,
+					rpm("construction", name, "key", key, "valid_nonce", nonce, "valid_sealed", sealed, "valid_aad", aad, "mutation", detail, "nonce", n, "sealed", s, "aad", a, "kit_output", o.out)) {
+					return false
+				}
 				rec.Count("sym.tamper.rejected", 1)
-			}
+				return true
+			})
 		}
 		for i := range sealed {
+			shape := "ciphertext-bit-flip"
+			if i >= len(sealed)-pr.tagLen {
+				shape = "tag-bit-flip"
+			}
 			for _, bit := range bitsFor(i, g.rep) {
-				try(nonce, flip(sealed, i, bit), aad, "sealed-bit-flip", fmt.Sprintf("sealed byte %d bit %d", i, bit))
+				try(nonce, flip(sealed, i, bit), aad, shape, fmt.Sprintf("sealed (ciphertext||tag) byte %d bit %d", i, bit))
 			}
 		}
 		for i := range nonce {
@@ -991,8 +1091,10 @@ func runHSDirect(j *judge, g group) {
 	nonce := rng.Bytes(16)
 	for L := 0; L < pr.tagLen; L++ {
 		in := rng.Bytes(L)
-		o := kOpen(aead, nonce, in, nil)
-		j.reject("aescbcaead.Open", name, "sealed-shorter-than-tag", [][]byte{o.out}, o.err, o.pan, nil, rpm("construction", name, "key", key, "nonce", nonce, "sealed", in))
+		j.eachLayout("wrongsize", pr.tagLen, func() bool {
+			o := kOpen(aead, nonce, in, nil)
+			return j.reject("aescbcaead.Open", name, "sealed-shorter-than-tag", [][]byte{o.out}, o.err, o.pan, nil, rpm("construction", name, "key", key, "nonce", nonce, "sealed", in))
+		})
 	}
 	// correctly MACed ciphertexts of a wrong size
 	for L := 0; L <= 33; L++ {
@@ -1001,16 +1103,135 @@ func runHSDirect(j *judge, g group) {
 		}
 		e := rng.Bytes(L)
 		sealed := append(clone(e), refHSTag(pr, key, nonce, e, nil)...)
-		o := kOpen(aead, nonce, sealed, nil)
 		rp := rpm("construction", name, "key", key, "nonce", nonce, "sealed", sealed, "note", "the tag is the correct HMAC over this ciphertext")
-		if L == 0 {
-			if j.noPanic("aescbcaead.Open", name, "valid-mac-empty-ciphertext", o.pan, rp) && o.err == nil {
-				rec.Count("observed.hs.validmac_empty_ciphertext.accepted", 1)
+		j.eachLayout("wrongsize", pr.tagLen, func() bool {
+			o := kOpen(aead, nonce, sealed, nil)
+			if L == 0 {
+				if !j.noPanic("aescbcaead.Open", name, "valid-mac-empty-ciphertext", o.pan, rp) {
+					return false
+				}
+				if o.err == nil {
+					rec.Count("observed.hs.validmac_empty_ciphertext.accepted", 1)
+				}
+				return true
 			}
+			if !j.reject("aescbcaead.Open", name, "valid-mac-ciphertext-len-not-block-multiple", [][]byte{o.out}, o.err, o.pan, nil, rp) {
+				return false
+			}
+			rec.Count("ctlen.hs.validmac_nonblock_rejected", 1)
+			return true
+		})
+	}
+}
+
+// ------------------------------------------------------------ padding directly
+
+func kPad(buf []byte, size int) (r rawRes) {
+	defer func() {
+		if p := recover(); p != nil {
+			r = rawRes{pan: panStr(p)}
+		}
+	}()
+	r.out, r.err = padding.PadPKCS7(lay(buf), size)
+	return r
+}
+
+func kUnpad(buf []byte, size int) (r rawRes) {
+	defer func() {
+		if p := recover(); p != nil {
+			r = rawRes{pan: panStr(p)}
+		}
+	}()
+	r.out, r.err = padding.UnpadPKCS7(lay(buf), size)
+	return r
+}
+
+// runPaddingDirect: kit's PKCS#7 against the in-harness one, every case in every buffer layout.
+func runPaddingDirect(j *judge, g group) {
+	rng := mon.NewRNG("c03-padding", j.idx)
+	for _, L := range ptLengths() {
+		if L > 4096 {
 			continue
 		}
-		if j.reject("aescbcaead.Open", name, "valid-mac-ciphertext-len-not-block-multiple", [][]byte{o.out}, o.err, o.pan, nil, rp) {
-			rec.Count("ctlen.hs.validmac_nonblock_rejected", 1)
+		buf := rng.Bytes(L)
+		want := refPad(buf)
+		rp := rpm("input", buf, "reference_padded", want)
+		j.eachLayout("padding", 0, func() bool {
+			p := kPad(buf, 16)
+			if !j.accept("padding.PadPKCS7", "", "pad", p.err, p.pan, rp) {
+				return false
+			}
+			if !bytes.Equal(p.out, want) {
+				j.viol("padding.PadPKCS7/interop-differs-from-reference", "PadPKCS7 differs from the independent PKCS#7 padder", rpm("input", buf, "kit", p.out, "reference", want))
+				return false
+			}
+			u := kUnpad(want, 16)
+			if !j.accept("padding.UnpadPKCS7", "", "reference-output", u.err, u.pan, rp) {
+				return false
+			}
+			if !bytes.Equal(u.out, buf) {
+				j.viol("padding.UnpadPKCS7/roundtrip-differs", "UnpadPKCS7(pad(x)) != x", rpm("input", buf, "padded", want, "kit", u.out))
+				return false
+			}
+			rec.Count("padding.roundtrip.ok", 1)
+			return true
+		})
+	}
+	// wrong size: not a whole number of blocks
+	for L := 1; L <= 65; L++ {
+		if L%16 == 0 {
+			continue
+		}
+		in := rng.Bytes(L)
+		j.eachLayout("padding", 0, func() bool {
+			u := kUnpad(in, 16)
+			return j.reject("padding.UnpadPKCS7", "", "input-len-not-block-multiple", [][]byte{u.out}, u.err, u.pan, nil, rpm("input", in))
+		})
+	}
+	// degenerate block sizes: the statement says nothing about them; no panic
+	for _, size := range []int{-1, 0, 1, 255, 256, 1000} {
+		in := rng.Bytes(32)
+		j.eachLayout("padding", 0, func() bool {
+			p := kPad(in, size)
+			u := kUnpad(in, size)
+			ok1 := j.noPanic("padding.PadPKCS7", "", fmt.Sprintf("block-size-%d", size), p.pan, rpm("input", in, "block_size", size))
+			ok2 := j.noPanic("padding.UnpadPKCS7", "", fmt.Sprintf("block-size-%d", size), u.pan, rpm("input", in, "block_size", size))
+			return ok1 && ok2
+		})
+	}
+	// damaged padding: where the independent unpadder still finds a valid padding kit must return the same bytes;
+	// where it does not, rejection is counted, not judged (unauthenticated data, the statement only speaks of ciphers)
+	for _, L := range []int{0, 5, 15, 16, 31} {
+		buf := rng.Bytes(L)
+		padded := refPad(buf)
+		for i := len(padded) - 16; i < len(padded); i++ {
+			for _, bit := range bitsFor(i, g.rep) {
+				in := flip(padded, i, bit)
+				want, valid := refUnpad(in)
+				rp := rpm("padded", padded, "input", in, "mutation", fmt.Sprintf("byte %d bit %d", i, bit))
+				j.eachLayout("padding", 0, func() bool {
+					u := kUnpad(in, 16)
+					if valid {
+						if !j.accept("padding.UnpadPKCS7", "", "still-valid-padding", u.err, u.pan, rp) {
+							return false
+						}
+						if !bytes.Equal(u.out, want) {
+							j.viol("padding.UnpadPKCS7/interop-differs-from-reference", "UnpadPKCS7 and the independent unpadder strip different paddings", rp)
+							return false
+						}
+						return true
+					}
+					if !j.noPanic("padding.UnpadPKCS7", "", "damaged-padding", u.pan, rp) {
+						return false
+					}
+					if u.err != nil {
+						rec.Count("observed.padding.damaged.rejected", 1)
+					} else {
+						rec.Count("observed.padding.damaged.accepted", 1)
+					}
+					return true
+				})
+			}
 		}
 	}
 }
